@@ -153,6 +153,9 @@ type RedisSpec struct {
 	LatUs   [2]int64   `json:"lat_us"`
 	DownUs  [][2]int64 `json:"down_us,omitempty"`  // [from,to) windows without answers
 	FlushUs []int64    `json:"flush_us,omitempty"` // restarts that lose all data
+	// SlowGetUs: GET commands take this long (a busy server, a large value)
+	// while PING and SET stay fast - the client still counts as connected.
+	SlowGetUs [2]int64 `json:"slow_get_us,omitempty"`
 }
 
 type RangeSpec struct {
@@ -250,12 +253,12 @@ type AnswerSpec struct {
 	Shape string   `json:"shape"` // plain | binary | suffix | srv | big | unknown | mixed
 	PadTo int      `json:"pad_to,omitempty"`
 	// MaxNames: the name pool also holds names of exactly 255 and 254 octets.
-	MaxNames bool   `json:"max_names,omitempty"`
+	MaxNames bool `json:"max_names,omitempty"`
 	// Nested: the name pool holds a chain of names each of which is the
 	// previous one with another label in front (12-16 of them): written with
 	// full suffix sharing, the last one is reached through as many pointers.
-	Nested bool `json:"nested,omitempty"`
-	OPT      *UpOPT `json:"opt,omitempty"`
+	Nested bool   `json:"nested,omitempty"`
+	OPT    *UpOPT `json:"opt,omitempty"`
 	// Compress: how the server lays the reply out: 0 none, 1 owners, 2 owners+rdata, 3 +srv
 	Compress int `json:"compress"`
 }
